@@ -139,6 +139,82 @@ def elementwise(v):
     return Struct("<elementwise>", {"elem": v})
 
 
+class FloatSpecial:
+    """NaN / +inf / -inf as an input or intermediate (extended-real run of a float function)."""
+    __slots__ = ("kind",)
+
+    def __init__(self, kind):
+        self.kind = kind
+
+    def __repr__(self):
+        return self.kind
+
+    def __eq__(self, o):
+        return isinstance(o, FloatSpecial) and o.kind == self.kind
+
+    def __hash__(self):
+        return hash(self.kind)
+
+
+NAN = FloatSpecial("NaN")
+PINF = FloatSpecial("+inf")
+NINF = FloatSpecial("-inf")
+
+
+def _sign_of(v):
+    if isinstance(v, FloatSpecial):
+        return {"+inf": 1, "-inf": -1}.get(v.kind)
+    if isinstance(v, RatFunc) and v.is_const():
+        c = v.const_value()
+        return (c > 0) - (c < 0)
+    return None
+
+
+def special_arith(op, a, b):
+    """IEEE arithmetic when an operand is NaN or an infinity; None if undecidable (sign unknown)."""
+    if (isinstance(a, FloatSpecial) and a.kind == "NaN") or (isinstance(b, FloatSpecial) and b.kind == "NaN"):
+        return NAN
+    sa, sb = _sign_of(a), _sign_of(b)
+    ia, ib = isinstance(a, FloatSpecial), isinstance(b, FloatSpecial)
+    if op in ("+", "-"):
+        if op == "-":
+            sb = -sb if sb is not None else None
+        if ia and ib:
+            return NAN if sa != sb else (PINF if sa > 0 else NINF)
+        if ia:
+            return a
+        return PINF if sb > 0 else NINF
+    if op == "*":
+        if sa is None or sb is None:
+            return None
+        if sa == 0 or sb == 0:
+            return NAN
+        return PINF if sa * sb > 0 else NINF
+    if op == "/":
+        if ia and ib:
+            return NAN
+        if ia:
+            if sb is None:
+                return None
+            return PINF if sa * (sb if sb != 0 else 1) > 0 else NINF
+        return None  # finite / inf = 0: let the caller fold
+    return None
+
+
+def special_cmp(op, a, b):
+    if (isinstance(a, FloatSpecial) and a.kind == "NaN") or (isinstance(b, FloatSpecial) and b.kind == "NaN"):
+        return op == "!="
+    # infinities against finite values / each other
+    def rank(v):
+        if isinstance(v, FloatSpecial):
+            return 2 if v.kind == "+inf" else -2
+        return 0
+    ra, rb = rank(a), rank(b)
+    if ra == rb and ra != 0:
+        return op in ("<=", ">=", "==")
+    return {"<": ra < rb, "<=": ra <= rb, ">": ra > rb, ">=": ra >= rb, "==": False, "!=": True}[op]
+
+
 BOTTOM = Bottom()
 UNIT = Tuple([])
 OPT_SOME = "std::prelude::v1::Some"
@@ -186,7 +262,7 @@ def val_eq(a, b):
         return len(a.items) == len(b.items) and all(val_eq(x, y) for x, y in zip(a.items, b.items))
     if isinstance(a, bool) and isinstance(b, bool):
         return a == b
-    if isinstance(a, (Bottom, StrVal)):
+    if isinstance(a, (Bottom, StrVal, FloatSpecial)):
         return a == b
     return False
 
@@ -314,6 +390,32 @@ class Ctx:
 
     def app(self, name, args):
         """Uninterpreted application; args are RatFunc (scalar leaves)."""
+        if any(isinstance(a, FloatSpecial) for a in args):
+            if name in ("min", "max") and len(args) == 2:
+                a, b = args
+                if isinstance(a, FloatSpecial) and a.kind == "NaN":
+                    return b
+                if isinstance(b, FloatSpecial) and b.kind == "NaN":
+                    return a
+                c = special_cmp("<=", a, b)
+                return (a if c else b) if name == "min" else (b if c else a)
+            if name in ("abs",):
+                return NAN if args[0].kind == "NaN" else PINF
+            if name in ("round", "floor", "ceil", "sqrt", "cbrt") and isinstance(args[0], FloatSpecial):
+                return NAN if (args[0].kind == "NaN" or (name == "sqrt" and args[0].kind == "-inf")) else args[0]
+            if name.startswith("cast:"):
+                # Rust `as`: NaN -> 0, +inf -> MAX, -inf -> MIN(0 for unsigned)
+                t = name[5:]
+                if t in ("f32", "f64"):
+                    return args[0]
+                if args[0].kind == "+inf" and t.startswith("u"):
+                    return self.num(2 ** _int_bits(t) - 1)
+                if t.startswith("u"):
+                    return self.num(0)
+            if any(isinstance(a, FloatSpecial) and a.kind == "NaN" for a in args):
+                # everything else propagates NaN; the application is kept visible as `name(NaN)`
+                return self.sym("%s(NaN)" % name)
+            return self.sym("%s(%s)" % (name, ",".join(repr(a) for a in args)))
         # light constant folding
         if name == "cbrt" and len(args) == 1 and isinstance(args[0], RatFunc) and not args[0].is_const():
             cube = _cube_of_linear(args[0], self)
@@ -393,6 +495,14 @@ class Ctx:
         return map2(lambda x, y: self._cmp_leaf(op, x, y), a, b)
 
     def _cmp_leaf(self, op, a, b):
+        if isinstance(a, FloatSpecial) or isinstance(b, FloatSpecial):
+            return special_cmp(op, a, b)
+        if isinstance(a, Struct) and isinstance(b, Struct) and op in ("==", "!="):
+            # enum values without symbolic payload (Option<Ordering> ...)
+            eq = _enum_eq(a, b)
+            if eq is None:
+                raise Opaque("comparison of structured values %r %s %r" % (a, op, b))
+            return eq if op == "==" else b_not(eq)
         if isinstance(a, bool) and isinstance(b, bool):
             if op == "==":
                 return a == b
@@ -964,7 +1074,7 @@ class Evaluator:
         if c is not None and ("ri" in c):
             return self.call_callee(c, [v], fr, e)
         if op == "-":
-            return tree_map(lambda x: -x if isinstance(x, RatFunc) else _bad(x, "neg"), v)
+            return tree_map(_neg_leaf, v)
         if op == "!":
             if _is_boolish(v):
                 return b_not(v)
@@ -995,6 +1105,13 @@ class Evaluator:
         b = self.deref(b)
         if op in ("+", "-", "*", "/"):
             def f(x, y):
+                if isinstance(x, FloatSpecial) or isinstance(y, FloatSpecial):
+                    r = special_arith(op, x, y)
+                    if r is None:
+                        if op == "/" and isinstance(y, FloatSpecial) and isinstance(x, RatFunc):
+                            return ctx.num(0)
+                        raise Opaque("extended-real %s with unknown sign: %r %s %r" % (op, x, op, y))
+                    return r
                 if not (isinstance(x, RatFunc) and isinstance(y, RatFunc)):
                     raise Opaque("arith on %r %s %r" % (x, op, y))
                 if op == "+":
@@ -1531,6 +1648,8 @@ class Evaluator:
             return mapn(lambda *xs: self.ctx.app("tuple%d" % len(xs), list(xs)), items)
         if isinstance(a, StrVal):
             return self.ctx.sym("str:" + a.s)
+        if isinstance(a, FloatSpecial):
+            return a
         if isinstance(a, Closure):
             raise Opaque("closure passed to uninterpreted function")
         if isinstance(a, Bottom):
@@ -1654,7 +1773,9 @@ class Evaluator:
         return self.ctx.sapp("sqrt", [s])
 
     def op_clamp(self, args, fr, c, e):
-        # clamp(x, lo, hi) = min(max(x, lo), hi)
+        # clamp(x, lo, hi) = min(max(x, lo), hi); f32::clamp propagates NaN
+        if isinstance(args[0], FloatSpecial) and args[0].kind == "NaN":
+            return NAN
         return self.ctx.sapp("min", [self.ctx.sapp("max", [args[0], args[1]]), args[2]])
 
     def write_through(self, ref, v, fr, e):
@@ -1781,7 +1902,7 @@ class Evaluator:
         return self.ctx.sapp("bitnot", args)
 
     def op_neg(self, args, fr, c, e):
-        return tree_map(lambda x: -x if isinstance(x, RatFunc) else _bad(x, "neg"), args[0])
+        return tree_map(_neg_leaf, args[0])
 
     def op_powu(self, args, fr, c, e):
         return self.op_powi(args, fr, c, e)
@@ -1923,6 +2044,19 @@ class Evaluator:
     def op_opt_is_none(self, args, fr, c, e):
         return self.opt_case(args[0], lambda x, f2: False, lambda f2: True, fr)
 
+    def op_partial_cmp(self, args, fr, c, e):
+        a, b = self.deref(args[0]), self.deref(args[1])
+        O = "std::cmp::Ordering::"
+
+        def leaf(x, y):
+            if isinstance(x, FloatSpecial) and x.kind == "NaN" or isinstance(y, FloatSpecial) and y.kind == "NaN":
+                return Struct(OPT_NONE, {})
+            lt = self.ctx._cmp_leaf("<", x, y)
+            eq = self.ctx._cmp_leaf("==", x, y)
+            mk = lambda n: Struct(OPT_SOME, {"0": Struct(O + n, {})})
+            return mk_ite(lt, mk("Less"), mk_ite(eq, mk("Equal"), mk("Greater")))
+        return map2(leaf, a, b)
+
     def op_phantom(self, args, fr, c, e):
         return Struct("PhantomData", {})
 
@@ -1942,6 +2076,52 @@ def _collect_refs(v, out):
     elif isinstance(v, Struct):
         for x in v.fields.values():
             _collect_refs(x, out)
+
+
+def _enum_eq(a, b):
+    """Equality of constructor trees (variants compared by name: std re-exports print differently).
+    Returns a boolean case tree, or None if undecidable."""
+    if isinstance(a, Ite):
+        t, f = _enum_eq(a.t, b), _enum_eq(a.f, b)
+        if t is None or f is None:
+            return None
+        return mk_ite_c(a.c, t, f)
+    if isinstance(b, Ite):
+        t, f = _enum_eq(a, b.t), _enum_eq(a, b.f)
+        if t is None or f is None:
+            return None
+        return mk_ite_c(b.c, t, f)
+    if isinstance(a, Struct) and isinstance(b, Struct):
+        if a.path.split("::")[-1] != b.path.split("::")[-1] or a.fields.keys() != b.fields.keys():
+            return False
+        acc = True
+        for k in a.fields:
+            r = _enum_eq(a.fields[k], b.fields[k])
+            if r is None:
+                return None
+            acc = b_and(acc, r)
+        return acc
+    if False:
+        if a.path.split("::")[-1] != b.path.split("::")[-1] or a.fields.keys() != b.fields.keys():
+            return False
+        for k in a.fields:
+            r = _enum_eq(a.fields[k], b.fields[k])
+            if r is None:
+                return None
+            if not r:
+                return False
+        return True
+    if isinstance(a, RatFunc) and isinstance(b, RatFunc) and a.is_const() and b.is_const():
+        return a.const_value() == b.const_value()
+    return None
+
+
+def _neg_leaf(x):
+    if isinstance(x, RatFunc):
+        return -x
+    if isinstance(x, FloatSpecial):
+        return {"NaN": NAN, "+inf": NINF, "-inf": PINF}[x.kind]
+    return _bad(x, "neg")
 
 
 def _bad(x, what):
@@ -2028,6 +2208,7 @@ for _t in ("std", "core"):
     _reg(["%s::cmp::PartialOrd::le" % _t], "cmp.<=")
     _reg(["%s::cmp::PartialOrd::gt" % _t], "cmp.>")
     _reg(["%s::cmp::PartialOrd::ge" % _t], "cmp.>=")
+    _reg(["%s::cmp::PartialOrd::partial_cmp" % _t], "partial_cmp")
     _reg(["%s::borrow::Borrow::borrow" % _t, "%s::convert::AsRef::as_ref" % _t, "%s::ops::Deref::deref" % _t], "id.")
 
 for _t in ("std", "core"):
